@@ -51,7 +51,7 @@ def pure_a(repo: Repo) -> List[Ob]:
             if w:
                 obs.append(bad("PURE-a", fi, key, ("C15", "C03", "C17"), w[0][0],
                                f"{en}.{mname} {w[0][1]} on the enum member, which is a process-wide singleton shared by every Operation of that type: "
-                               "constructing one operation changes what another accepts/does"))
+                               "constructing one operation changes what another accepts/does", code="; ".join(sorted({x[1] for x in w}))))
             else:
                 obs.append(ok("PURE-a", fi, key, ("C15",), fi.node, "does not write to the enum member"))
     # update() runs at every construction on the shared member: resolving operand-type *names* to classes must leave entries that
